@@ -50,6 +50,6 @@ Fixpoint smismatches_aux (i : N) (cs : list scase) : list (N * outcome * list (p
   end.
 Definition smismatches (cs : list scase) := smismatches_aux 0%N cs.
 
-(** the class predicate of F8, executable, so that harness and model can be compared on it *)
-Definition in_F8 (f : font_abs) : bool := negb (layers_safeb f).
-Definition f8_bits (cs : list scase) : list N := map (λ c, if in_F8 (sc_font c) then 1%N else 0%N) cs.
+(** fonts that reach save must have plain layer directories and glif names (checked per case) *)
+Definition unsafe_bits (cs : list scase) : list N :=
+  map (λ c, if layers_safeb (sc_font c) then 0%N else 1%N) cs.
